@@ -204,6 +204,7 @@ func (m *Machine) atReturn(c *Config, fn *ssa.Function, fc *FuncContract, result
 	m.cur.curResults = results
 	m.regionEnv = env
 	defer func() { m.cur.curResults = nil; m.regionEnv = nil }()
+	m.applySets(env, fc, c.st)
 	for _, e := range fc.Ensures {
 		if opts.onlyProps != nil && !propsIntersect(e.Props, opts.onlyProps) {
 			continue
@@ -430,5 +431,22 @@ func (m *Machine) structuralClauses(c *Config, fn *ssa.Function, fc *FuncContrac
 				m.emit(c, "structure", "calls-only:"+name, []string{"C17"}, mkBool(ok2), m.site(ins), "calls only: "+strings.Join(fc.CallsOnly, ", "))
 			}
 		}
+	}
+}
+
+// applySets performs the ghost assignments of a contract ("sets @g = e").
+func (m *Machine) applySets(env *Env, fc *FuncContract, st *State) {
+	for _, gs := range fc.Sets {
+		cv, err := m.eval(env, gs.Expr)
+		if err != nil {
+			m.errs = append(m.errs, fmt.Sprintf("sets %s: %v", gs.Ghost, err))
+			continue
+		}
+		s, ok := ghostSorts[gs.Ghost]
+		if !ok {
+			m.errs = append(m.errs, "sets: unknown ghost "+gs.Ghost)
+			continue
+		}
+		st.ghost[gs.Ghost] = m.asSort(env, cv, s)
 	}
 }
